@@ -127,6 +127,7 @@ type Machine struct {
 	vtimers    map[*Obj]*vTimer
 	vtimerList []*vTimer
 	vnow       int64
+	idleFires  int
 	builders map[string]*StrV
 	softViol []*Violation // known findings met on this path (the path continues)
 	spec     bool // speculative (if-conversion) evaluation in progress
@@ -572,7 +573,7 @@ func (m *Machine) resetPath() {
 	m.subKeys = map[string]*Obj{}
 	m.syncMaps = map[string]*MapV{}
 	m.afterFuncs = nil
-	m.vtimers, m.vtimerList, m.vnow = nil, nil, 0
+	m.vtimers, m.vtimerList, m.vnow, m.idleFires = nil, nil, 0, 0
 	m.builders = map[string]*StrV{}
 	m.raceOn = false
 	if m.funcs == nil {
